@@ -132,7 +132,7 @@ def cli_probes(extra):
 
 
 CLI_HANDLE = None
-if CLI_X is not None and not chk.replay:
+if CLI_X is not None:
     if chk._cov is not None:
         chk._cov.stop()         # the child would trace a whole command-line run line by line
     CLI_HANDLE = c15_cli.start_cli_runs(REPO, [(cli_argv(o), o['nres'], o['shift'], o['finish']) for o in CLI_RUNS],
